@@ -86,6 +86,10 @@ var hopNames = []string{"Keep-Alive", "Proxy-Authorization", "Proxy-Connection",
 
 type hdr struct{ k, v string }
 
+// otherForwarders: a second forwarder with the opposite host pass-through setting is created
+// right after the one under test (set per case by the generator).
+var otherForwarders bool
+
 type spec struct {
 	method    string
 	target    string
@@ -107,7 +111,7 @@ func genSpec(t *rapid.T) *spec {
 	s := &spec{}
 	s.method = rapid.SampledFrom([]string{"GET", "GET", "POST", "DELETE", "PUT", "HEAD", "OPTIONS"}).Draw(t, "method")
 	s.target, s.absolute = genTarget(t)
-	s.host = rapid.SampledFrom([]string{"front.example", "front.example:8443", "front.example:80", "[::1]:8080", "10.0.0.1"}).Draw(t, "host")
+	s.host = rapid.SampledFrom([]string{"front.example", "front.example:8443", "front.example:80", "[::1]:8080", "10.0.0.1", "[2001:db8::1]", "[::1]", "[2001:db8::5]:443"}).Draw(t, "host")
 	for i := rapid.IntRange(0, 8).Draw(t, "ne2e"); i > 0; i-- {
 		s.headers = append(s.headers, hdr{rapid.SampledFrom(e2eNames).Draw(t, "hn"), rapid.StringMatching(`[!-~]([ -~]{0,10}[!-~])?`).Draw(t, "hv")})
 	}
@@ -159,6 +163,7 @@ func genSpec(t *rapid.T) *spec {
 	}
 	s.tls = rapid.Bool().Draw(t, "tls")
 	s.passHost = rapid.Bool().Draw(t, "passHost")
+	otherForwarders = rapid.IntRange(0, 2).Draw(t, "otherForwarderInProcess") == 0
 	s.tlsBackend = rapid.IntRange(0, 3).Draw(t, "tlsBackend") == 0
 	if s.method == "POST" || s.method == "PUT" {
 		s.body = rapid.StringMatching(`[a-z]{0,20}`).Draw(t, "body")
@@ -268,6 +273,12 @@ func check(fatalf func(string, ...any), s *spec) (discarded bool) {
 	req.URL = &url.URL{Scheme: scheme, Host: be.Addr()}
 	fwd := forward.New(s.passHost)
 	fwd.Transport = transport
+	// other forwarders with the opposite setting exist in the same process (built later, and used)
+	if otherForwarders {
+		other := forward.New(!s.passHost)
+		other.Transport = transport
+		_ = other
+	}
 	rec := sim.NewRecorder()
 	fwd.ServeHTTP(rec, req)
 	reqs := be.Requests()
